@@ -413,7 +413,28 @@ func normalizePackage(repo, relDir string, p *packages.Package, imp types.Import
 					out.Write(b[at:])
 					src[names[i]] = out.Bytes()
 				}
-				// removing a helper may leave an import unused only if the inliner already moved its uses; verify
+				// a deleted helper may have been the last user of an import: drop such imports, then verify
+				for tries := 0; tries < 6; tries++ {
+					_, err := checkPackage(p.PkgPath, p.Name, names, src, imp)
+					te, isTE := err.(types.Error)
+					if err == nil || !isTE || !strings.HasSuffix(te.Msg, "imported and not used") {
+						break
+					}
+					pos := te.Fset.Position(te.Pos)
+					b := src[pos.Filename]
+					if b == nil || pos.Offset >= len(b) {
+						break
+					}
+					// blank the import spec's line (keeps the line structure)
+					lo := bytes.LastIndexByte(b[:pos.Offset], '\n') + 1
+					hi := pos.Offset + bytes.IndexByte(b[pos.Offset:], '\n')
+					if hi < pos.Offset {
+						break
+					}
+					nb := append([]byte{}, b[:lo]...)
+					nb = append(nb, b[hi:]...)
+					src[pos.Filename] = nb
+				}
 				if _, err := checkPackage(p.PkgPath, p.Name, names, src, imp); err != nil {
 					res.Skipped = append(res.Skipped, fmt.Sprintf("%s: deleting unused helpers broke the build (%v): helpers kept", relDir, err))
 					// undo deletions by re-running without them is costly; fall back to the sources before deletion
@@ -442,10 +463,12 @@ func normalizePackage(repo, relDir string, p *packages.Package, imp types.Import
 			how = " (as a function literal)"
 			// flatten the literal(s) the inliner introduced; literals that were there before stay
 			keep := map[string]bool{}
+			before := map[string]bool{}
 			if f0, err := parser.ParseFile(token.NewFileSet(), "x.go", src[names[best.file]], 0); err == nil {
-				for _, c := range findIIFEs(f0) {
+				for _, c := range findIIFEsAll(f0) {
 					lo, hi := c.call.Pos()-f0.FileStart, c.call.End()-f0.FileStart
 					keep[string(src[names[best.file]][lo:hi])] = true
+					before[string(src[names[best.file]][lo:hi])] = true
 				}
 			}
 			for k := 0; k < 8; k++ {
@@ -465,6 +488,22 @@ func normalizePackage(repo, relDir string, p *packages.Package, imp types.Import
 				}
 				content = nc
 				how = " (literal flattened)"
+			}
+			// a literal that could not be flattened would turn the locals it captures into cells and hide
+			// its body just as the helper did: such a call is left as it was
+			left := false
+			if f1, err := parser.ParseFile(token.NewFileSet(), "x.go", content, 0); err == nil {
+				for _, c := range findIIFEsAll(f1) {
+					lo, hi := c.call.Pos()-f1.FileStart, c.call.End()-f1.FileStart
+					if !before[string(content[lo:hi])] {
+						left = true
+					}
+				}
+			}
+			if left {
+				failed[best.callee.FullName()+"@"+best.encl] = true
+				res.Skipped = append(res.Skipped, fmt.Sprintf("%s in %s: inlining needs a function literal here (call under && / ||, defer in the callee, ...): call kept", best.callee.FullName(), best.encl))
+				continue
 			}
 		}
 		res.Inlined = append(res.Inlined, fmt.Sprintf("%s into %s%s", best.callee.FullName(), best.encl, how))
@@ -558,6 +597,20 @@ func lineMap(orig, norm []byte) []int {
 type iife struct {
 	call *ast.CallExpr
 	lit  *ast.FuncLit
+}
+
+// findIIFEsAll: every call of a function literal, whatever its parameters.
+func findIIFEsAll(f *ast.File) []iife {
+	var out []iife
+	ast.Inspect(f, func(n ast.Node) bool {
+		if c, ok := n.(*ast.CallExpr); ok {
+			if l, ok := c.Fun.(*ast.FuncLit); ok {
+				out = append(out, iife{c, l})
+			}
+		}
+		return true
+	})
+	return out
 }
 
 func findIIFEs(f *ast.File) []iife {
